@@ -160,6 +160,57 @@ TABLE.update({
     ),
 })
 
+_LAYOUT_TECH = (
+    "explicit-state exploration of all edit/lookup histories up to a depth "
+    "bound on the real objects; fresh-scan oracle in every reached state; "
+    "cross-schedule differential on states sharing one public structure")
+_LAYOUT_NOTE = (
+    "Trusted: the fresh-scan oracle. Depth-bounded (quick: every history of "
+    "<= 2 operations from 3 initial states incl. one with all indexes "
+    "materialised, thorough: <= 3 and a second pool at addresses next to "
+    "2^64); value domains address {None,0,2}, interval size {0,2,4}, block "
+    "offset/size {0,1,3}.")
+TABLE.update({
+    "C05": (
+        True, MC, _LAYOUT_TECH,
+        "Pool: IR > 2 modules > 2 sections, 4 byte intervals (3 in one "
+        "section), 4 blocks (3 in one interval, code and data) so that "
+        "first-build, incremental-replay and rebuild paths of the lazy index "
+        "are all taken (counted in the evidence). Alphabet (91 operations): "
+        "interval address/size edits, block offset/size edits, block and "
+        "interval moves by setter and by add/discard/update/clear, section "
+        "and module moves, four kinds of lookups, save+load. Every reached "
+        "state is probed at every interval, section, module and the IR with "
+        "every point -1..8 and 14 ranges (stepped, empty, reversed; thorough: "
+        "all range(a,b,s), 0<=a<=b<=8, s<=3) for byte/code/data_blocks_on/at "
+        "and the offset variants; interval scope must equal the fresh scan "
+        "exactly, wider scopes must satisfy Must <= R <= May, each block "
+        "once, kind variants must equal the filtered byte variant.",
+        _LAYOUT_NOTE, "3/C05"),
+    "C06": (
+        True, MC, _LAYOUT_TECH,
+        "Same exploration as C05; in every reached state byte_intervals_on/at "
+        "on sections, modules and the IR, sections_on/at on modules and the "
+        "IR and Section.address/size are compared for every query with the "
+        "fresh scan of the current structure (exact equality, each member "
+        "once).",
+        _LAYOUT_NOTE, "3/C06"),
+    "C12": (
+        True, MC, _LAYOUT_TECH,
+        "Same exploration as C05/C06, in which lookups (all indexes, one "
+        "interval, one section, IR-wide) are ordinary operations, so every "
+        "placement of lookups between the edits of a history within the bound "
+        "is a distinct explored schedule. Oracle-free differential: all "
+        "reached states are grouped by their public structure; the complete "
+        "answer vector (every scope, method and query, plus section extents) "
+        "must be identical within a group, i.e. independent of which lookups "
+        "happened when. The evidence reports how many structures were reached "
+        "with several distinct hidden index states and how often each "
+        "LazyIntervalTree branch (first build, incremental, rebuild with "
+        "pending = and > size) was taken.",
+        _LAYOUT_NOTE, "3/C12"),
+})
+
 PENDING = [
     "C01", "C02", "C03", "C04", "C05", "C06", "C07", "C08", "C09", "C10",
     "C11", "C12", "C13", "C14", "C16", "C17", "C18", "C19",
